@@ -23,6 +23,12 @@ def belongs_to(prop):
 
 
 def run(ctx, prop=PROP):
+    proved = None
+    if prop == "C03":
+        # engine A: the real reduce of both cube types on the same cell symbols (all cell contents; reals for floats)
+        from ..kvc import cell_check
+
+        proved = cell_check.run_agree(ctx, "C03")
     mon, totals = runner.run_sharded(drive_agg.work, ctx.tier)
     broken = {ob: n for ob, n in mon.fail_counts.items() if contracts_agg.property_of(ob) == "checker"}
     if broken:
@@ -34,6 +40,15 @@ def run(ctx, prop=PROP):
     runner.report(ctx, mon, totals, belongs_to(prop), RULE, expect_clauses=EXPECT[prop], exhaustive=True,
                   extra_cov={"driver_calls_by_family": {k.split(":", 1)[1]: int(v) for k, v in sorted(mon.calls.items()) if k.startswith("driver:")},
                              "scope": drive_agg.scopes(ctx.tier)})
+    if proved:
+        ctx.coverage["proved_subobligations"] = dict(proved, what="the real reduce of ffunc_X and xfunc_X (X = count, valid_count, sum, mean) executed cell-wise on the "
+                                                     "SAME symbols (V valid rows, M missing rows, Wv valid weight, S value): same missing flag, same value where not missing, "
+                                                     "and that value is the direct per-cell aggregate (rows or weighted count / S / S over Wv), for both policies, weighted and "
+                                                     "unweighted, NaN and (value, validity) report formats")
+        if proved["cellwise_stale"]:
+            ctx.notes.append("proof_stale: %r - construct outside the cell-wise executor; the bounded contracts decide" % (proved["cellwise_stale"][:4],))
+        ctx.assumptions.append("proved part: floats treated as reals; the meaning of each region at one cell after marginal differencing is the sidecar's "
+                               "(contracts/reduce.py), checked on real fills by the bounded clauses get_initial_regions / _fill / fill; differencing itself: C02")
     ctx.assumptions += ["bounded: holds on the enumerated cube / fact / weight scope only (engine C is the bounded stand-in, not a proof)",
                         "contents of family A design rows are a deterministic full-cycle walk through the grid lists, not their full product "
                         "with every cube (family B enumerates contents exhaustively for the 1-dimension cubes)",
